@@ -199,6 +199,10 @@ func main() {
 					wrapped = append(wrapped, zerolog.SyncWriter(w))
 				}
 				lg = zerolog.New(zerolog.MultiLevelWriter(wrapped...))
+			case composition == "plain(multi)":
+				// the fan-out behind a writer that knows nothing about levels (ConsoleWriter.Out, log.New, a wrapper
+				// struct): events reach it through Write, not WriteLevel
+				lg = zerolog.New(struct{ io.Writer }{zerolog.MultiLevelWriter(ws...)})
 			case composition == "multi(multi)" && len(ws) >= 2:
 				lg = zerolog.New(zerolog.MultiLevelWriter(zerolog.MultiLevelWriter(ws[:1]...), zerolog.MultiLevelWriter(ws[1:]...)))
 			default:
@@ -352,6 +356,17 @@ func main() {
 				for _, lv := range levelVecs(E, true) {
 					run(sh, lv, false)
 				}
+			}
+		}
+	}
+	composition = "plain(multi)"
+	for _, sh := range []shape{{"W"}, {"W", "W"}, {"W", "W", "W"}} {
+		for E := 1; E <= 3; E++ {
+			if len(sh) == 3 && E == 3 && !thorough {
+				continue
+			}
+			for _, lv := range levelVecs(E, E <= 2) {
+				run(sh, lv, false)
 			}
 		}
 	}
